@@ -55,7 +55,7 @@ CONSTANTS
   MAXLEN = 40
   SEEDSEL = {seeds}
   GEN = {gen}
-INVARIANTS NoPanic Sound Complete Emit
+INVARIANTS {invs}
 """
 
 ALL_TYPES = ["Isd", "Asn", "IsdAsn", "Svc", "Host", "AddrV4", "AddrV6", "AddrSvc", "Addr", "IpAddr",
@@ -66,6 +66,7 @@ GROUP = {"SockV4": "Sock", "SockV6": "Sock", "SockSvc": "Sock", "SockIp": "Sock"
 
 
 def cfg(c, name, **kw):
+    kw.setdefault("invs", "NoPanic Sound Complete Emit")
     p = os.path.join(c.work, name)
     open(p, "w").write(MC_TMPL.format(**kw))
     return p
@@ -190,10 +191,9 @@ def run(c):
     # ---- 1. exhaustive runs + generation ----------------------------------------------------
     if thorough:
         gens = [dict(k=4, seeds=["empty"]), dict(k=1, seeds=["ids", "addr", "sock", "txt", "txtp"]),
-                dict(k=2, seeds=["ids", "addrsmall", "socksmall", "txtsmall"])]
+                dict(k=2, seeds=["ids", "addrsmall", "sockone", "txtsmall"])]
     else:
-        gens = [dict(k=3, seeds=["empty"]), dict(k=1, seeds=["ids", "addr", "sock", "txt", "txtp"]),
-                dict(k=2, seeds=["sockone"])]
+        gens = [dict(k=3, seeds=["empty"]), dict(k=1, seeds=["ids", "addr", "sock", "txt", "txtp"])]
     cases = {}
     for gi, g in enumerate(gens):
         r = c.tlc(SD, "MC_AddrText", cfg=cfg(c, "mc_%d.cfg" % gi, fixed="TRUE", fixtxt="TRUE", k=g["k"], seeds=seedset(g["seeds"]), gen="TRUE"),
@@ -212,8 +212,8 @@ def run(c):
                expect_violation=True, coverage=False)
     if "NoPanic" not in r0.violated:
         c.fail_tool("oracle self-check failed: FIXED=FALSE no longer violates NoPanic in the model")
-    r1 = c.tlc(SD, "MC_AddrText", cfg=cfg(c, "mc_unfixed2.cfg", fixed="FALSE", fixtxt="TRUE", k=1, seeds=seedset(["socksmall"]), gen="FALSE"),
-               expect_violation=True, coverage=False, extra=["-continue"])
+    r1 = c.tlc(SD, "MC_AddrText", cfg=cfg(c, "mc_unfixed2.cfg", fixed="FALSE", fixtxt="TRUE", k=1, seeds=seedset(["sockone"]), gen="FALSE", invs="Sound"),
+               expect_violation=True, coverage=False)
     if "Sound" not in r1.violated:
         c.fail_tool("oracle self-check failed: FIXED=FALSE no longer violates Sound in the model")
     r2 = c.tlc(SD, "MC_AddrText", cfg=cfg(c, "mc_unfixtxt.cfg", fixed="TRUE", fixtxt="FALSE", k=1, seeds=seedset(["txtsmall"]), gen="FALSE"),
